@@ -9,3 +9,19 @@ PROPS["C18"] = dict(
     assumptions=["xarray basic slicing raster[a:b, c:d] is a view with matching coordinate slices and the same attrs (assumed contract, DESIGN 3)"],
     trusted_base=[],
 )
+
+PROPS["C08"] = dict(
+    level="proof",
+    technique="contract-based deductive verification: loop invariants + documented-formula postconditions on the real slope/aspect/curvature kernels (pyvc VCs -> z3, XR float model), lemmas over the spec functions",
+    not_decided=["bit-level float32 rounding of the results (slope <= 90 is proved in real arithmetic as < 90.0000009)"],
+    assumptions=["transcendental functions are uninterpreted with listed real-analysis axioms (sqrt, atan range/sign, atan2 quadrants, sin^2+cos^2=1)"],
+    trusted_base=[],
+)
+
+PROPS["C13"] = dict(
+    level="proof",
+    technique="contract-based deductive verification: per-cell postconditions (band formula, NaN iff zero denominator) on the real spectral kernels (pyvc VCs -> z3, XR float model); exact IEEE float32 lemmas for the normalised difference",
+    not_decided=["'single precision': Numba evaluates 2.0*red etc. in float64 and rounds on store; only the XR value is proved"],
+    assumptions=["ARVI and SAVI follow the library's own documented/tested formulas (ARVI '+blue', SAVI divided by (1+L)), recorded as observations"],
+    trusted_base=[],
+)
